@@ -4142,6 +4142,13 @@ give_to_app:
     }
     if (!block.m && !lg_crcv->observe_set) {
 fail_resp:
+      /*
+       * This block cannot be made part of the body (ETag / Content-Format /
+       * too many gaps / no memory).  It is passed on to the application, so
+       * make sure it is not taken for a complete, successful response.
+       */
+      if (COAP_RESPONSE_CLASS(rcvd->code) == 2)
+        rcvd->code = COAP_RESPONSE_CODE(408);
       /* lg_crcv no longer required - cache it for 1 sec */
       coap_ticks(&lg_crcv->last_used);
       lg_crcv->last_used = lg_crcv->last_used - COAP_MAX_TRANSMIT_WAIT_TICKS(session) +
